@@ -3,6 +3,7 @@
    response of a rejection is delivered whole before the close, nothing is emitted otherwise. *)
 From PM Require Import Lib.Bytes Lib.BytesFacts Lib.PyStr Http.Url Http.Chunk Http.Parser
   Net.Responses Net.ResponsesFacts Net.FirstRequest.
+From PM Require Http.ParserFacts.
 From Coq Require Import ZArith.
 
 (* ------------------------------------------------------------------ small generic facts *)
@@ -958,8 +959,9 @@ Section Facts.
     - apply N.eqb_neq in En.
       assert (Hn : 1 <= n /\ n <= len mv).
       { unfold n. rewrite take_firstn. unfold len in *. rewrite firstn_length.
-        destruct mv as [|x mv']; [cbn in En; unfold n in En; cbn in En; lia|].
-        cbn [length] in *. lia. }
+        destruct mv as [|x mv'].
+        - exfalso. apply En. unfold n. rewrite take_firstn, firstn_nil. cbn [length]. now rewrite N.min_0_r.
+        - cbn [length] in *. lia. }
       rewrite drop_skipn, skipn_length. unfold len in Hn. lia.
   Qed.
 
@@ -985,7 +987,7 @@ Section Facts.
       destruct (flush_spec h k) as (_ & Hm1 & _ & Ht1 & _).
       set (h1 := flush cfg h k) in *.
       destruct (negb (has_buffer h1)) eqn:Hb1.
-      + apply torn_fold. reflexivity.
+      + rewrite torn_fold; reflexivity.
       + apply negb_false_iff, has_buffer_true in Hb1. cbn [length] in Hp.
         destruct (reads_teared h1).
         * apply IH; auto; try congruence. lia.
@@ -1003,5 +1005,51 @@ Section Facts.
     destruct (torn (runs evs)) eqn:Et; [now rewrite torn_fold|].
     apply rejected_iff in HR as (_ & _ & [Hm|Hm]); [|congruence].
     apply drain; auto. now apply run_MF.
+  Qed.
+
+  (* ---------------------------------------------------------------- no rejection is an artefact of fuel *)
+  (* the request parser of every reachable state satisfies the invariant under which
+     Http/ParserFacts.v proves that parse never returns Err OutOfFuel *)
+  Lemma hd_parser_inv h d : PM.Http.ParserFacts.parser_inv (request h) ->
+    PM.Http.ParserFacts.parser_inv (request (fst (hd h d))).
+  Proof.
+    intros Hi. hd_cases h d.
+    all: hsimpl; rewrite ?is_nil_app_cons; hsimpl;
+      try match goal with |- context [is_nil (hq ?y)] => destruct (is_nil (hq y)) end; hsimpl.
+    all: try exact Hi.
+    all: eapply PM.Http.ParserFacts.parse_inv; eauto.
+  Qed.
+
+  Lemma step_parser_inv h ev : PM.Http.ParserFacts.parser_inv (request h) ->
+    PM.Http.ParserFacts.parser_inv (request (stp h ev)).
+  Proof.
+    intros Hi.
+    assert (G : forall h1 h0, frozen h1 = frozen h0 -> request h1 = request h0).
+    { intros h1 h0 Hf. unfold frozen in Hf. now inversion Hf. }
+    destruct (no_read h) eqn:Hn.
+    - rewrite (G _ h); [exact Hi|]. apply logical_frozen, step_no_read, Hn.
+    - unfold no_read in Hn. rewrite !orb_false_iff in Hn. destruct Hn as [[Ht Hm] Hr].
+      destruct (ev_r ev) as [[d| |]|] eqn:Hev.
+      + destruct (step_data h ev d Ht Hm Hr Hev) as (h1 & F1 & _ & _ & _ & _ & _ & E).
+        rewrite E. pose proof (hd_parser_inv h1 d) as Hd.
+        rewrite (G h1 h (logical_frozen _ _ F1)) in Hd. specialize (Hd Hi).
+        destruct (hd h1 d) as [h2 r]. cbn [fst] in Hd.
+        rewrite (G _ h2 (after_data_frozen h2 r)). exact Hd.
+      + destruct (step_gone h ev Ht Hm Hr (or_introl Hev)) as (h1 & F1 & _ & _ & _ & _ & _ & E).
+        rewrite E. cbv zeta. rewrite <- (G h1 h (logical_frozen _ _ F1)) in Hi.
+        destruct (has_buffer _); hsimpl; exact Hi.
+      + destruct (step_gone h ev Ht Hm Hr (or_intror Hev)) as (h1 & F1 & _ & _ & _ & _ & _ & E).
+        rewrite E. cbv zeta. rewrite <- (G h1 h (logical_frozen _ _ F1)) in Hi.
+        destruct (has_buffer _); hsimpl; exact Hi.
+      + destruct (step_idle h ev Ht Hm Hr Hev) as (h1 & F1 & _ & _ & _ & _ & _ & E).
+        rewrite E. rewrite <- (G h1 h (logical_frozen _ _ F1)) in Hi. hsimpl. exact Hi.
+  Qed.
+
+  Theorem parse_never_out_of_fuel_on_runs evs d : parse (request (runs evs)) d <> Err OutOfFuel.
+  Proof.
+    apply PM.Http.ParserFacts.parse_never_out_of_fuel.
+    unfold run. assert (H : PM.Http.ParserFacts.parser_inv (request new_handler)) by apply PM.Http.ParserFacts.parser_inv_new.
+    revert H. generalize new_handler. induction evs as [|ev evs IH]; intros h H; cbn [fold_left]; [exact H|].
+    apply IH, step_parser_inv, H.
   Qed.
 End Facts.
